@@ -517,3 +517,13 @@ def run(chk, repo, tier):
            key='current_error-type', qualname='<module>',
            what='current_error only ever holds None or a caught '
                 'RINGSyntaxError', found='; '.join(writers))
+
+
+def thorough(chk, repo):
+    """Thorough tier: the shapes of every shipped pattern tree are among the
+    analysed ones."""
+    from .. import sweeps, grammar_ir as G
+    from . import c09 as _c09
+    strict, g = G.load(repo)
+    I, esc = _c09.run_shapes(repo, g)
+    sweeps.data_shapes_covered(chk, repo, g, I, 'R09.7')
